@@ -106,6 +106,17 @@ DETECT.update({
     "C20-e": (["C20"], "DETECTED", "chain filter ignored when a sender filter is set"),
 })
 
+# ---- first round, C01-C04 (confirmed by hand with tools/seedverify.sh before seedconfirm.sh existed) ----
+DETECT.update({
+    "C01-a": (["C01"], "DETECTED", "quick tier, seed 1: Walk to a valid block fails (stale delete marker makes a re-created key stale)"),
+    "C01-b": (["C01", "C02"], "MISSED", "needed CheckState to call SelectUtxos for every address after every step (the stale cache entry is only visible through selection)"),
+    "C02-a": (["C02"], "DETECTED", "pending fee-paying transaction confirmed by a peer block applied with Play"),
+    "C02-b": (["C02", "C03"], "MISSED", "needed the double-spend family to re-cite outputs spent anywhere (not only by pending transactions) and the every-step SelectUtxos probe"),
+    "C03-b": (["C03"], "DETECTED", "pool family P->{C1,C2} + conflicting peer block"),
+    "C04-a": (["C04"], "DETECTED", "same tx in the old trunk and in the trunk-switching block"),
+    "C04-b": (["C04"], "DETECTED", "a rejected (staged) block followed by any successful confirmation"),
+})
+
 
 def main():
     for sid in sorted(os.listdir(os.path.join(ROOT, "seeded"))):
